@@ -234,6 +234,15 @@ func c05Targeted() (out []struct {
 		add(fmt.Sprintf("status %02X as event status", st), cat(hdr(0, 1, 96), trk(0, st, 0x01, 0x02, 0, 0xFF, 0x2F, 0)))
 		add(fmt.Sprintf("status %02X after a note", st), cat(hdr(0, 1, 96), trk(0, 0x90, 1, 1, 0, st, 0x01, 0, 0xFF, 0x2F, 0)))
 	}
+	// the containers a MIDI file travels in (RIFF / RMID, a MacBinary-like lead-in): whatever a reader makes of them, a
+	// chunk size that promises more than there is must not be believed
+	smfBody := cat(hdr(0, 1, 96), trk(0, 0x90, 1, 1, 0, 0xFF, 0x2F, 0))
+	le := func(n uint32) []byte { return []byte{byte(n), byte(n >> 8), byte(n >> 16), byte(n >> 24)} }
+	for _, sz := range []uint32{0, 22, 0x04000000, 0x7FFFFFF0, 0xFFFFFFF0} {
+		add(fmt.Sprintf("RIFF RMID container, LIST chunk declaring %d bytes", sz), cat([]byte("RIFF"), le(uint32(len(smfBody))+32), []byte("RMID"), []byte("LIST"), le(sz), []byte("INFO"), []byte("data"), le(uint32(len(smfBody))), smfBody))
+		add(fmt.Sprintf("RIFF RMID container, data chunk declaring %d bytes", sz), cat([]byte("RIFF"), le(sz), []byte("RMID"), []byte("data"), le(sz), smfBody))
+		add(fmt.Sprintf("RIFF RMID container cut behind a chunk header declaring %d bytes", sz), cat([]byte("RIFF"), le(0x00FFFFFF), []byte("RMID"), []byte("DISP"), le(sz)))
+	}
 	add("SMPTE header", cat(hdr(1, 1, 0xE728), trk(0, 0x90, 1, 1, 0, 0xFF, 0x51, 3, 7, 0xA1, 0x20, 0, 0xFF, 0x2F, 0)))
 	for _, l := range [][]byte{{0xFF, 0xFF, 0xFF, 0x7F}, {0x8F, 0xFF, 0xFF, 0xFF, 0x7F}, {0xFF, 0xFF, 0x7F}, {0x81, 0x80, 0x80, 0x00}} {
 		add(fmt.Sprintf("meta text declaring length VLQ % X", l), cat(hdr(0, 1, 96), trk(cat([]byte{0, 0xFF, 0x01}, l, []byte("abc"))...)))
